@@ -109,7 +109,7 @@ def e2e_case(draw):
         twin = (g.replace("'", "''"), c) if draw(st.booleans()) else (g + "'/'" + c, draw(name_st))
         if twin not in pairs:
             pairs.append(twin)
-    return {'pairs': [list(p) for p in pairs], 'via': draw(st.sampled_from(['writer', 'writer_multi', 'writer_reuse', 'encoder'])),
+    return {'pairs': [list(p) for p in pairs], 'via': draw(st.sampled_from(['writer', 'writer_multi', 'writer_reuse', 'writer_shuffled', 'encoder'])),
             'extra_groups': draw(st.lists(name_st, max_size=2, unique=True))}
 
 
@@ -140,6 +140,14 @@ def check_e2e(case, rec):
                 objs += [GroupObject(g, {'tag': g}) for g in case['extra_groups']]
                 if case['via'] == 'writer':
                     w.write_segment(objs)
+                elif case['via'] == 'writer_shuffled':
+                    # the same channels three times: twice in one order, then in the opposite order with other lengths
+                    chans = objs[:len(pairs)]
+                    w.write_segment(objs)
+                    w.write_segment(chans)
+                    tail = {pc: [900 + k * 10 + j for j in range(k % 3 + (1 if k % 2 else 4))] for k, pc in enumerate(pairs)}
+                    w.write_segment([ChannelObject(g, c, np.array(tail[(g, c)], dtype='i4')) for (g, c) in reversed(pairs)])
+                    values = {pc: values[pc] + values[pc] + tail[pc] for pc in pairs}
                 elif case['via'] == 'writer_reuse':
                     # one ChannelObject / GroupObject instance, renamed and refilled before every segment
                     ch = ChannelObject(pairs[0][0], pairs[0][1], np.array(values[pairs[0]], dtype='i4'))
@@ -187,6 +195,24 @@ def check_e2e(case, rec):
                 g, c, ch.name, ch.group_name, ch.path))
         if [int(x) for x in ch[:]] != values[(g, c)]:
             rec.violation('confused', 'channel (%r, %r) holds %r, written %r' % (g, c, list(ch[:]), values[(g, c)]))
+    # the same look-ups on a lazily opened file: whole channel, its last values only, its first value
+    ok, lazy = rec.guard('open', lambda: TdmsFile.open(io.BytesIO(blob)))
+    if ok:
+        with lazy:
+            for (g, c) in pairs:
+                want = values[(g, c)]
+                try:
+                    ch = lazy[g][c]
+                    tails = [[int(x) for x in ch[k:]] for k in range(len(want))]
+                    tail_got = next((t for k, t in enumerate(tails) if t != want[k:]), want[6:])
+                    first = int(ch[0])
+                    whole = [int(x) for x in ch[:]]
+                except Exception as e:      # noqa
+                    rec.violation('lazy_lookup:raised', 'channel (%r, %r): %s' % (g, c, describe_exc(e)), key=exc_key(e))
+                    continue
+                if any(t != want[k:] for k, t in enumerate(tails)) or first != want[0] or whole != want:
+                    rec.violation('confused:lazy', 'TdmsFile.open: channel (%r, %r) [k:] = %r for some k, [0] = %r, [:] = %r; written %r' % (
+                        g, c, tail_got, first, whole, want))
     # names that were not written - in particular the quoted / escaped forms of names that were - must not resolve
     probes = set(CONFUSABLE)
     for g in want_groups:
